@@ -1781,6 +1781,15 @@ func (tb *TB) call(c *ssa.Call) *Term {
 	switch name {
 	case "builtin append":
 		return tb.appendTerm(c, args)
+	case "bytes.Join", "strings.Join":
+		// joining a literal list with an empty separator is the concatenation of its parts
+		if len(args) == 2 && args[0].Op == "List" && len(args[0].Args) > 0 && (args[1].Op == "Nil" || (args[1].Op == "Const" && (args[1].S == `""` || args[1].S == ""))) {
+			return mk("Concat", "", c, args[0].Args...)
+		}
+	case "slices.Concat", "bytes.Concat":
+		if len(args) == 1 && args[0].Op == "List" && len(args[0].Args) > 0 {
+			return mk("Concat", "", c, args[0].Args...)
+		}
 	case "builtin len":
 		return mk("Call", "len", c, args...)
 	case "builtin cap":
